@@ -409,7 +409,7 @@ UNITS = [
       ['C09', 'C10', 'C13', 'C18'],
       replace=['Parameter__isDimensionConsistent/contract_rec_Parameter__isDimensionConsistent', 'vf_vec_float_assign/contract_vf_vec_float_assign'],
       unwind=9, timeout=300, level='PB', bound='at most 7 dimensions of at most 255 entries (format capacity)'),
-    U('c3d_write', IO, 'h_c3d_write', ['c3d__write/contract_c3d__write'], ['C15', 'C13', 'C14', 'C18'],
+    U('c3d_write', IO, 'h_c3d_write', ['c3d__write/contract_c3d__write'], ['C15', 'C13', 'C14', 'C18', 'C03'],
       replace=['Header__write/contract_io_Header__write', 'Parameters__write/contract_io_Parameters__write',
                'Data__write/contract_io_Data__write'],
       unwind=8, timeout=300, track_alloc=True,
